@@ -258,18 +258,17 @@ theorem npPercentile_neg (vals : List XVal) (q : Rat) (h : NoInf vals) (hq0 : 0 
 theorem bestOverSteps_mirror (t : PTrial) : bestOverSteps (negT t) .minimize = xneg (bestOverSteps t .maximize) := by
   simp only [bestOverSteps, interValues_negT, nanMin_neg]
 
-theorem percentileOverTrials_mirror (completed : List PTrial) (step : Int) (q : Rat) (nMin : Nat)
-    (h : NoInf (valuesAtStep completed step)) (hq0 : 0 ≤ q) (hq1 : q ≤ 100) :
+/-- by construction since the repair of F41: under MAXIMIZE the source negates, takes the percentile at `q`, negates -/
+theorem percentileOverTrials_mirror (completed : List PTrial) (step : Int) (q : Rat) (nMin : Nat) :
     percentileOverTrials (completed.map negT) .minimize step q nMin =
       xneg (percentileOverTrials completed .maximize step q nMin) := by
   unfold percentileOverTrials
   simp only [valuesAtStep_neg, List.length_map]
   split
   · rfl
-  · exact npPercentile_neg _ q h hq0 hq1
+  · simp
 
-theorem percentilePrune_mirror (c : PercentileCfg) (trials : List PTrial) (t : PTrial)
-    (hq0 : 0 ≤ c.q) (hq1 : c.q ≤ 100) (h : ∀ step, NoInf (valuesAtStep (completedTrials trials) step)) :
+theorem percentilePrune_mirror (c : PercentileCfg) (trials : List PTrial) (t : PTrial) :
     percentilePrune c .minimize (trials.map negT) (negT t) = percentilePrune c .maximize trials t := by
   unfold percentilePrune
   simp only [completedTrials_neg, List.length_map, lastStep_negT, interSteps_negT, bestOverSteps_mirror, xisNan_xneg]
@@ -280,7 +279,18 @@ theorem percentilePrune_mirror (c : PercentileCfg) (trials : List PTrial) (t : P
   cases lastStep t.inter with
   | none => rfl
   | some step =>
-    simp only [percentileOverTrials_mirror _ step c.q c.nMin (h step) hq0 hq1, xisNan_xneg, xlt_xneg]
+    simp only [percentileOverTrials_mirror, xisNan_xneg, xlt_xneg]
+
+/-- the PRE-F41 formulation (`percentile = 100 - percentile` on the raw values) mirrors only without ±inf reports -/
+theorem percentileOverTrialsOld_mirror (completed : List PTrial) (step : Int) (q : Rat) (nMin : Nat)
+    (h : NoInf (valuesAtStep completed step)) (hq0 : 0 ≤ q) (hq1 : q ≤ 100) :
+    percentileOverTrialsOld (completed.map negT) .minimize step q nMin =
+      xneg (percentileOverTrialsOld completed .maximize step q nMin) := by
+  unfold percentileOverTrialsOld
+  simp only [valuesAtStep_neg, List.length_map]
+  split
+  · rfl
+  · exact npPercentile_neg _ q h hq0 hq1
 
 /-! ### SuccessiveHalvingPruner -/
 
@@ -475,26 +485,12 @@ def mirrorP : Pruner → Pruner
   | .patient w k d => .patient (mirrorP w) k d
   | p => p
 
-/-- the percentile of every percentile / median pruner involved lies in `[0, 100]` (the constructor checks it) -/
-def PercentileOk : Pruner → Prop
-  | .percentile c => 0 ≤ c.q ∧ c.q ≤ 100
-  | .patient w _ _ => PercentileOk w
-  | _ => True
-
-/-- percentile / median pruners are involved only on studies whose COMPLETE trials reported no ±inf -/
-def NeedsNoInf : Pruner → Prop
-  | .percentile _ => True
-  | .patient w _ _ => NeedsNoInf w
-  | _ => False
-
-theorem prune_mirror (crc : Nat → Nat) (trials : List PTrial) (n : Nat) (t : PTrial) (p : Pruner)
-    (hq : PercentileOk p) (hinf : NeedsNoInf p → ∀ step, NoInf (valuesAtStep (completedTrials trials) step))
-    (hr : NoNanRungs trials) :
+theorem prune_mirror (crc : Nat → Nat) (trials : List PTrial) (n : Nat) (t : PTrial) (p : Pruner) (hr : NoNanRungs trials) :
     prune crc ⟨.minimize, trials.map negT⟩ n (negT t) (mirrorP p) = negR (prune crc ⟨.maximize, trials⟩ n t p) := by
   induction p with
   | nop => rfl
   | percentile c =>
-    simp only [mirrorP, prune, percentilePrune_mirror c trials t hq.1 hq.2 (hinf trivial)]
+    simp only [mirrorP, prune, percentilePrune_mirror c trials t]
     rfl
   | threshold c =>
     simp only [mirrorP, prune, thresholdPrune_mirror]
@@ -504,7 +500,7 @@ theorem prune_mirror (crc : Nat → Nat) (trials : List PTrial) (n : Nat) (t : P
   | patient w k dl ih =>
     simp only [mirrorP, prune, patientMaybe_mirror]
     split
-    · exact ih hq hinf
+    · exact ih
     · rfl
   | patientNone k dl =>
     simp only [mirrorP, prune, patientMaybe_mirror]
